@@ -1,5 +1,5 @@
 (* Properties_C04.v — end to end, browsers converge to the services actually offered (partial). *)
-From QV Require Import Base Fields SrcFacts Msg SrcDecisions Cache Sim Prober Hostname Provider ProviderSpec Browser BrowserProofs NetProofs.
+From QV Require Import Base Fields SrcFacts Msg SrcDecisions Cache CacheSpec Sim Prober Hostname Provider ProviderSpec ProviderListener Browser BrowserProofs NetProofs.
 Local Open Scope Z_scope.
 
 (* PARTIAL.  The end-to-end statement quantifies over networks, delays, duplications and histories; it is decided on
@@ -26,3 +26,17 @@ Theorem C04_announcement_reported_partial j ptr srv txt (T nm : list N) b :
                              (fold_left (fun a kv => attrs_insert (fst kv) (snd kv) a) (r_attrs txt) [])))].
 Proof. exact (announcement_reported j ptr srv txt T nm b). Qed.
 Print Assumptions C04_announcement_reported_partial.
+
+(* A further hop, for every history of a provider: a remote cache - the library's own Cache::addRecord, model Cache.v -
+   that hears every multicast response of the hostname + provider + prober composite, in order, at any instants and with
+   any jitter, without loss and without a record expiring in between, holds exactly the provider's current PTR, SRV and
+   TXT records while the provider exists and is confirmed, and none of them otherwise (never confirmed, or destroyed).
+   This composes the run-level listener invariant of C13 with the cache's replacement rule of C06
+   (cache_refines_listener: Cache::addRecord refines the abstract RFC 6762 listener step). *)
+Theorem C04_remote_cache_holds_the_served_records_partial c L C :
+  lcreach c L C ->
+  (pv_exists (cp_prov c) = true -> pv_confirmed (cp_prov c) = true ->
+   held C = [pv_ptr (cp_prov c); pv_srv (cp_prov c); pv_txt (cp_prov c)]) /\
+  (pv_exists (cp_prov c) && pv_confirmed (cp_prov c) = false -> held C = []).
+Proof. intro R. destruct (remote_cache_holds_served c L C R) as (_ & _ & A & B). exact (conj A B). Qed.
+Print Assumptions C04_remote_cache_holds_the_served_records_partial.
